@@ -58,7 +58,7 @@ def showApplied (l : List Cmd) : String :=
 
 def parseCfg (s : String) : Option Cfg :=
   match s.toList with
-  | [a, b, c, d] => some ⟨a = '1', b = '1', c = '1', d = '1'⟩
+  | [a, b, c, d, e] => some ⟨a = '1', b = '1', c = '1', d = '1', e = '1'⟩
   | _ => none
 
 def finish (r : Outcome × World) : String :=
